@@ -5,7 +5,7 @@ import sys
 import time
 
 from . import core, engine, roles as roles_mod
-from . import search, nfa, da, ser, cli, pure, lazy, helper
+from . import search, nfa, da, ser, cli, pure, lazy, helper, misc
 
 TRUSTED = [
     "L1: for a power of two B, x < kB and c < B imply x ^ c < kB; next_power_of_two(n) >= n",
@@ -151,6 +151,11 @@ def run_C10(ctx, R):
     nfa.rule_add(ctx, R, E.NR, rules={"VALID-DUP", "VALID-EMPTY", "VALID-NONEMPTY"})
     da.rule_dispatch(ctx, R, E.NR, E.BR, rules={"VALID-NONEMPTY", "VALID-PROP"})
     da.rule_build_entry(ctx, R, E.NR, E.BR, rules={"VALID-CONV", "VALID-ENTRY", "VALID-PROP"})
+    misc.rule_valid_kind(ctx, R, E.NR, E.BR)
+    # "never panics": the free-list / growth discipline whose assertions must never fire for valid input
+    helper.rule_helper(ctx, R)
+    da.rule_array_growth(ctx, R, E.NR, E.BR)
+    da.rule_placement(ctx, R, E.NR, E.BR, rules={"B-EXT", "DA-EDGE"})
 
 
 def run_C11(ctx, R):
@@ -171,6 +176,7 @@ def run_C12(ctx, R):
 
 def run_C13(ctx, R):
     E = Env(ctx, R)
+    misc.rule_term_loops(ctx, R)
     nfa.rule_outputs_pass(ctx, R, E.NR)
     nfa.rule_fail_passes(ctx, R, E.NR)
     search.rule_trans(ctx, R)
@@ -192,6 +198,9 @@ def run_C14(ctx, R):
 
 def run_C15(ctx, R):
     E = Env(ctx, R)
+    misc.rule_stat(ctx, R)
+    da.rule_placement(ctx, R, E.NR, E.BR, rules={"DA-EDGE"})
+    nfa.rule_fail_passes(ctx, R, E.NR)
     nfa.rule_add(ctx, R, E.NR, rules={"STAT-NS", "STAT-SHADOW"})
     da.rule_build_entry(ctx, R, E.NR, E.BR, rules={"STAT-NS"})
 
